@@ -11,7 +11,8 @@ PROP = "C13"
 LEVEL = "other"
 MODULE = "PropC13"
 THEOREMS = ["C13_snapshot_rollback_restores", "C13_snapshot_commit_keeps", "C13_replay_returns_cached",
-            "C13_assert_consumes_nothing", "C13_not_consumes_nothing", "C13_ok_is_neutral"]
+            "C13_assert_consumes_nothing", "C13_not_consumes_nothing", "C13_ok_is_neutral",
+            "C13_backtracking_is_invisible", "C13_go_is_spec_from_any_state"]
 IMPORTS = ["Base", "Lexer", "CorrLexer", "Comb", "CorrComb"]
 
 
